@@ -106,3 +106,14 @@ package criteria_ordering
 //@   property C15 C20
 //@   nopanic
 //@   ensures [name] result == "weakest"
+
+// ---- the random ordering: a permutation of the criteria drawn from the request's seed
+//@ func parseRandomOrderingProps
+//@   property C15 C16
+//@   ensures [seed_as_requested] fresh(result) && result.RandomSeed == (decoded_has(*props, "RandomSeed") ? decoded_int(*props, "RandomSeed") : 0)
+//@ func (*RandomCriteriaOrderingResolver).OrderCriteria
+//@   property C15 C16
+//@   fnparam .Generator pure
+//@   requires model.distinctCriteria(params.Criteria)
+//@   ensures [permutation] result != nil && fresh(result) && fresh(*result) && model.rearranged(*result, params.Criteria)
+//@   returnhint [drawn_from_the_requests_seed] generator == appfn(w.Generator, parsedProps.RandomSeed)
